@@ -166,6 +166,8 @@ pub enum SimStop {
 }
 
 pub type Listener = Rc<dyn Fn(SimStream, SocketAddr)>;
+pub type HttpAnswer = Pin<Box<dyn Future<Output = Result<reqwest::Response, String>>>>;
+pub type HttpHandler = Rc<dyn Fn(reqwest::Request) -> HttpAnswer>;
 
 pub struct SimInner {
     pub cfg: SimConfig,
@@ -188,6 +190,7 @@ pub struct SimInner {
     ticks: Cell<u64>,
     pub fs: RefCell<FsState>,
     listener: RefCell<Option<Listener>>,
+    http_handler: RefCell<Option<HttpHandler>>,
     next_port: Cell<u16>,
     pub panics: RefCell<Vec<String>>,
     pub connections: Cell<u64>,
@@ -357,6 +360,14 @@ impl SimRuntime for SimInner {
     fn is_dead(&self) -> bool {
         self.dead.get()
     }
+
+    fn http_call(&self, request: reqwest::Request) -> HttpAnswer {
+        let handler = self.http_handler.borrow().clone();
+        match handler {
+            Some(handler) => handler(request),
+            None => Box::pin(async { Err("the simulated server is down".to_string()) }),
+        }
+    }
 }
 
 impl SimInner {
@@ -466,6 +477,7 @@ impl Sim {
                     ..Default::default()
                 }),
                 listener: RefCell::new(None),
+                http_handler: RefCell::new(None),
                 next_port: Cell::new(40000),
                 panics: RefCell::new(Vec::new()),
                 connections: Cell::new(0),
@@ -518,6 +530,7 @@ impl Sim {
         // Whatever is still alive dies with the simulated world.
         self.inner.dead.set(true);
         self.inner.listener.borrow_mut().take();
+        self.inner.http_handler.borrow_mut().take();
         let leftovers: Vec<Actor> = self.inner.actors.borrow_mut().drain(..).collect();
         drop(leftovers);
         let leftovers: Vec<Actor> = self.inner.spawned.borrow_mut().drain(..).collect();
@@ -761,6 +774,10 @@ impl Sim {
 
     pub fn set_dead(&self, dead: bool) {
         self.inner.dead.set(dead);
+    }
+
+    pub fn set_http_handler(&self, handler: Option<HttpHandler>) {
+        *self.inner.http_handler.borrow_mut() = handler;
     }
 
     pub fn set_listener(&self, listener: Option<Listener>) {
